@@ -5,7 +5,7 @@ from ref import pools, schnorr, halfagg
 
 ID = "C17"
 LEVEL = "exploration"
-CONFIGS = {"quick": ["san"], "thorough": ["san", "san_nv", "mx_i64"]}
+CONFIGS = {"quick": ["san", "mx_i64"], "thorough": ["san", "san_nv", "mx_i64"]}
 EXTRA_BUILDS = ["sg13", "sg199"]
 RULE = ("n = 0..64 honest BIP-340 signatures: one-shot aggregate compared byte for byte with the draft's formula and accepted by aggverify; every "
         "composition n = n1+...+nk of incremental aggregation for n <= 8 (sampled above) must give identical bytes; buffer lengths 0..32(n+2); "
@@ -90,6 +90,14 @@ def wl(ctx, config):
                 vcase(ctx, config, [], [], [], b32(sv), "n0:s_boundary")
             vcase(ctx, config, [], [], [], bytes(31), "n0:len31"); vcase(ctx, config, [], [], [], bytes(33), "n0:len33"); vcase(ctx, config, [], [], [], bytes(64), "n0:len64")
             continue
+        # every aggregate length 0 .. 32(k+3): valid bytes followed by padding / truncated; only 32(k+1) may be accepted (length rule
+        # of aggverify for every length, not only +-1 and +-32)
+        if k <= 8 or rng.random() < 0.3:
+            tail = pools.rbytes(rng, 64) if rng.random() < 0.5 else bytes(64)
+            for L in range(0, 32 * (k + 3) + 1):
+                if L == len(agg): continue
+                if k > 4 and L % 16 and rng.random() < 0.8: continue          # larger n: all multiples of 16, sampled others
+                vcase(ctx, config, B.pk, B.obj, B.msg, (agg + tail)[:L], "len_sweep", nontrivial=abs(L - len(agg)) <= 32)
         # mutations
         nm = 14 if k <= 8 else 5
         for _ in range(nm):
@@ -141,5 +149,5 @@ def _rand_comp(rng, k):
 def run(ctx):
     from vlib import smallgroup
     smallgroup.run(ctx, 'halfagg', {'halfagg_s_reenc': 'accepted', 'halfagg_incremental_eq': 'differs'})
-    for config in ctx.configs:
+    for config in ctx.cfgs():
         wl(ctx, config)
